@@ -230,6 +230,9 @@ func (ms MultipleSubs) Sanitize() error {
 }
 
 func (ls LigatureSubs) Sanitize() error {
+	if ls.Coverage == nil {
+		return errors.New("GSUB: missing LigatureSubs coverage")
+	}
 	if exp, got := ls.Coverage.Len(), len(ls.LigatureSets); exp != got {
 		return fmt.Errorf("GSUB: invalid LigatureSubs sets count (%d != %d)", exp, got)
 	}
